@@ -336,3 +336,123 @@ Theorem cam_batch_invariant weights bs bs' xs ts : bs_ok bs -> bs_ok bs' ->
   cam_core resize weights feat featgrad K bs xs ts = cam_core resize weights feat featgrad K bs' xs ts.
 Proof. intros H H'. rewrite !cam_core_rowwise by assumption. reflexivity. Qed.
 End CamProofs.
+
+(* ------------------------------------------------------------------ 5. layer choice, net-level statements *)
+Close Scope Qc_scope. Open Scope nat_scope.
+
+Lemma first_filters_shift r i : first_filters r (S i) = option_map S (first_filters r i).
+Proof. revert i; induction r as [|l r IH]; intro i; cbn [first_filters]; [reflexivity|].
+  destruct (l_filters l); [reflexivity | apply IH]. Qed.
+
+Lemma last_conv_snoc m l : last_conv (m ++ [l]) = if l_filters l then Some (length m) else last_conv m.
+Proof.
+  unfold last_conv. rewrite rev_app_distr. cbn [rev app first_filters]. rewrite app_length. cbn [length].
+  destruct (l_filters l); [f_equal; lia|].
+  rewrite first_filters_shift. destruct (first_filters (rev m) 0) as [j|]; cbn [option_map]; [f_equal; lia | reflexivity].
+Qed.
+
+Lemma has_filters_lt n j : has_filters_at n j -> j < length n.
+Proof. intros (l & H & _). apply nth_error_Some. congruence. Qed.
+
+Theorem last_conv_is_last n i : last_conv n = Some i -> is_last_conv n i.
+Proof.
+  revert i. induction n as [|l m IH] using rev_ind; intros i H; [discriminate|].
+  rewrite last_conv_snoc in H. destruct (l_filters l) eqn:Fl.
+  - injection H as <-. split.
+    + exists l. split; [|exact Fl]. rewrite nth_error_app2 by lia. rewrite Nat.sub_diag. reflexivity.
+    + intros j Hj Hf. apply has_filters_lt in Hf. rewrite app_length in Hf. cbn [length] in Hf. lia.
+  - destruct (IH i H) as [(l0 & Hn & Hl0) Hlast]. split.
+    + exists l0. split; [|exact Hl0]. rewrite nth_error_app1; [exact Hn|]. apply nth_error_Some. congruence.
+    + intros j Hj (l1 & Hn1 & Hl1).
+      destruct (Nat.lt_ge_cases j (length m)) as [Hlt|Hge].
+      * rewrite nth_error_app1 in Hn1 by exact Hlt. apply (Hlast j Hj). exists l1. split; assumption.
+      * rewrite nth_error_app2 in Hn1 by exact Hge.
+        destruct (j - length m) as [|k] eqn:E; cbn in Hn1.
+        -- injection Hn1 as <-. congruence.
+        -- destruct k; discriminate.
+Qed.
+
+Theorem last_conv_none n : last_conv n = None -> forall j, ~ has_filters_at n j.
+Proof.
+  induction n as [|l m IH] using rev_ind; intros H j (l1 & Hn1 & Hl1).
+  - destruct j; discriminate.
+  - rewrite last_conv_snoc in H. destruct (l_filters l) eqn:Fl; [discriminate|].
+    destruct (Nat.lt_ge_cases j (length m)) as [Hlt|Hge].
+    + rewrite nth_error_app1 in Hn1 by exact Hlt. apply (IH H j). exists l1. split; assumption.
+    + rewrite nth_error_app2 in Hn1 by exact Hge.
+      destruct (j - length m) as [|k] eqn:E; cbn in Hn1.
+      * injection Hn1 as <-. congruence.
+      * destruct k; discriminate.
+Qed.
+
+Lemma index_of_name_spec s n i0 i : index_of_name s n i0 = Some i ->
+  exists k, i = i0 + k /\ name_at n k s /\ forall k', k' < k -> ~ name_at n k' s.
+Proof.
+  revert i0; induction n as [|l n IH]; intros i0 H; [discriminate|]. cbn [index_of_name] in H.
+  destruct (String.eqb (l_name l) s) eqn:E.
+  - injection H as <-. exists 0. split; [lia|]. split.
+    + exists l. split; [reflexivity | apply String.eqb_eq; exact E].
+    + intros k' Hk; lia.
+  - destruct (IH _ H) as (k & -> & Hk & Hmin). exists (S k). split; [lia|]. split.
+    + destruct Hk as (l0 & Hn & Hl0). exists l0. split; assumption.
+    + intros [|k'] Hk' (l0 & Hn & Hl0).
+      * cbn in Hn. injection Hn as <-. apply String.eqb_neq in E. contradiction.
+      * apply (Hmin k'); [lia|]. exists l0. split; assumption.
+Qed.
+
+Theorem find_by_name n s i : find_layer n (ByName s) = Some i ->
+  name_at n i s /\ forall j, j < i -> ~ name_at n j s.
+Proof. intro H. apply index_of_name_spec in H as (k & -> & H1 & H2). exact (conj H1 H2). Qed.
+
+Theorem find_by_index n z i : find_layer n (ByIndex z) = Some i <->
+  ((0 <= z < Z.of_nat (length n))%Z /\ i = Z.to_nat z) \/
+  ((- Z.of_nat (length n) <= z < 0)%Z /\ i = Z.to_nat (Z.of_nat (length n) + z)).
+Proof.
+  unfold find_layer. set (len := Z.of_nat (length n)).
+  destruct (Z.ltb_spec z 0) as [Hneg|Hpos];
+  [ destruct (Z.leb_spec 0 (len + z)) as [A|A]; destruct (Z.ltb_spec (len + z) len) as [B|B]
+  | destruct (Z.leb_spec 0 z) as [A|A]; destruct (Z.ltb_spec z len) as [B|B] ]; cbn [andb];
+  (split;
+   [ intro H; try discriminate; injection H as <-;
+     ((left; split; [lia | reflexivity]) || (right; split; [lia | reflexivity]))
+   | intros [[H1 H2]|[H1 H2]]; try (exfalso; lia); subst i; reflexivity ]).
+Qed.
+
+Theorem choose_layer_default n : choose_layer n None = last_conv n.
+Proof. reflexivity. Qed.
+
+(* the two-headed model: predictions are the model's predictions, A is the chosen layer's output *)
+Lemma forward_split n k x : forward n x = forward (skipn k n) (forward (firstn k n) x).
+Proof. unfold forward. rewrite <- fold_left_app, firstn_skipn. reflexivity. Qed.
+
+Open Scope Qc_scope.
+Theorem gradcam_correct resize n cl bs xs ts i :
+  choose_layer n cl = Some i -> bs_ok bs ->
+  cam_shapes (net_feat n i) (net_featgrad n i) (layer_chan n i) xs ts ->
+  gradcam resize n cl bs xs ts
+  = Some (gradcam_spec (net_feat n i) (layer_chan n i) resize
+            (w_gradcam (net_feat n i) (net_featgrad n i) (layer_chan n i)) xs ts).
+Proof. intros Hc Hb Hs. unfold gradcam, gradcam_gen. rewrite Hc. f_equal. apply gradcam_core_correct; assumption. Qed.
+
+Theorem gradcampp_correct eps resize n cl bs xs ts i :
+  choose_layer n cl = Some i -> bs_ok bs ->
+  cam_shapes (net_feat n i) (net_featgrad n i) (layer_chan n i) xs ts ->
+  gradcampp eps resize n cl bs xs ts
+  = Some (gradcam_spec (net_feat n i) (layer_chan n i) resize
+            (w_gradcampp (net_feat n i) (net_featgrad n i) (layer_chan n i) eps) xs ts).
+Proof. intros Hc Hb Hs. unfold gradcampp, gradcam_gen. rewrite Hc. f_equal. apply gradcampp_core_correct; assumption. Qed.
+
+Theorem gradcam_batch_invariant weights resize n cl bs bs' xs ts : bs_ok bs -> bs_ok bs' ->
+  gradcam_gen weights resize n cl bs xs ts = gradcam_gen weights resize n cl bs' xs ts.
+Proof. intros H H'. unfold gradcam_gen. destruct (choose_layer n cl); [|reflexivity]. f_equal.
+  apply cam_batch_invariant; assumption. Qed.
+
+Theorem relu_explainer_batch_invariant p n bs bs' xs ts : bs_ok bs -> bs_ok bs' ->
+  relu_explainer p n bs xs ts = relu_explainer p n bs' xs ts.
+Proof. intros H H'. unfold relu_explainer. rewrite !batch_gradient_rowwise by assumption. reflexivity. Qed.
+
+(* the final ReLU: maps are non-negative before the resize *)
+Lemma relu_nonneg x : 0 <= relu x.
+Proof. qcases; qc2q; lra. Qed.
+Theorem cam_spec_nonneg feat K w x t v : In v (cam_spec feat K w x t) -> 0 <= v.
+Proof. unfold cam_spec. intro H. apply in_map_iff in H as (pos & <- & _). apply relu_nonneg. Qed.
